@@ -47,13 +47,13 @@ Qed.
 Lemma attr_eqb_eq a b : attr_eqb a b = true <-> a = b.
 Proof.
   destruct a, b; cbn; try (split; [discriminate | discriminate]); try tauto;
-    rewrite String.eqb_eq; split; [intros ->; reflexivity | intros H; inversion H; reflexivity].
+    rewrite String.eqb_eq; (split; [intros ->; reflexivity | intros H; inversion H; reflexivity]).
 Qed.
 
 Lemma cattr_eqb_eq a b : cattr_eqb a b = true <-> a = b.
 Proof.
   destruct a, b; cbn; try (split; discriminate);
-    rewrite String.eqb_eq; split; [intros ->; reflexivity | intros H; inversion H; reflexivity].
+    rewrite String.eqb_eq; (split; [intros ->; reflexivity | intros H; inversion H; reflexivity]).
 Qed.
 
 Lemma list_eqb_eq {A} (eqb : A -> A -> bool) :
@@ -118,8 +118,8 @@ Proof.
   induction fs as [|f fs IH]; intros es ats He Ha; cbn in *.
   - destruct es, ats; cbn in *; try discriminate; reflexivity.
   - destruct (fsym f) eqn:Ef; cbn in *.
-    + destruct es as [|e es]; cbn in *; [discriminate|]. rewrite IH by lia. rewrite Ef. reflexivity.
-    + destruct ats as [|a ats]; cbn in *; [discriminate|]. rewrite IH by lia. rewrite Ef. reflexivity.
+    + destruct es as [|e es]; cbn in *; [discriminate|]. rewrite IH by lia. reflexivity.
+    + destruct ats as [|a ats]; cbn in *; [discriminate|]. rewrite IH by lia. reflexivity.
 Qed.
 
 (* constructor idempotence on normalised arguments: cls( *get_arguments(x)) = x *)
@@ -233,26 +233,30 @@ Proof.
   - apply IH; auto; intros x Hx; [apply I1 | apply I2]; right; auto.
 Qed.
 
+Lemma content_inj_list (S : list attr) xs :
+  Forall (fun a => forall b, incl (attrs_of a) S -> incl (attrs_of b) S -> content a = content b -> a = b) xs ->
+  forall ys, incl (flat_map attrs_of xs) S -> incl (flat_map attrs_of ys) S ->
+             map content xs = map content ys -> xs = ys.
+Proof.
+  induction 1 as [|x xs Hx _ IHl]; intros [|y ys] Ia Ib E; cbn in *; try discriminate; auto.
+  injection E as E1 E2. f_equal.
+  - apply Hx; auto; intros z Hz; [apply Ia | apply Ib]; apply in_or_app; left; auto.
+  - apply IHl; auto; intros z Hz; [apply Ia | apply Ib]; apply in_or_app; right; auto.
+Qed.
+
 Theorem content_inj (S : list attr) : conv_inj_on S ->
   forall a b, incl (attrs_of a) S -> incl (attrs_of b) S -> content a = content b -> a = b.
 Proof.
   intros Hi. induction a as [s|q|h args IH|c args attrs IH] using expr_ind';
-    intros [t|p|k ys|d ys bts] Ia Ib E; cbn in E; try discriminate; inversion E; subst; auto.
-  - f_equal. clear E. cbn in Ia, Ib. revert ys Ib H1.
-    induction IH as [|x xs Hx _ IHl]; intros [|y ys] Ib E; cbn in *; try discriminate; auto.
-    inversion E. f_equal.
-    + apply Hx; auto; intros z Hz; [apply Ia | apply Ib]; apply in_or_app; left; auto.
-    + apply IHl; auto; intros z Hz; [apply Ia | apply Ib]; apply in_or_app; right; auto.
-  - assert (Eattrs : attrs = bts).
-    { apply (map_conv_inj _ _ S Hi); auto; intros z Hz; [apply Ia | apply Ib]; cbn; apply in_or_app; left; auto. }
-    subst bts. f_equal. clear E H3.
-    assert (Ia' : incl (flat_map attrs_of args) S) by (intros z Hz; apply Ia; cbn; apply in_or_app; right; auto).
-    assert (Ib' : incl (flat_map attrs_of ys) S) by (intros z Hz; apply Ib; cbn; apply in_or_app; right; auto).
-    clear Ia Ib. revert ys Ib' H1.
-    induction IH as [|x xs Hx _ IHl]; intros [|y ys] Ib E; cbn in *; try discriminate; auto.
-    inversion E. f_equal.
-    + apply Hx; auto; intros z Hz; [apply Ia' | apply Ib]; apply in_or_app; left; auto.
-    + apply IHl; auto; intros z Hz; [apply Ia' | apply Ib]; apply in_or_app; right; auto.
+    intros [t|p|k ys|d ys bts] Ia Ib E; cbn in E; try discriminate.
+  - injection E as ->. reflexivity.
+  - injection E as ->. reflexivity.
+  - injection E as -> E2. f_equal. cbn in Ia, Ib. eapply content_inj_list; eauto.
+  - injection E as -> E2 E3. cbn in Ia, Ib.
+    assert (Eattrs : attrs = bts).
+    { apply (map_conv_inj _ _ S Hi); auto; intros z Hz; [apply Ia | apply Ib]; apply in_or_app; left; auto. }
+    subst bts. f_equal.
+    eapply content_inj_list; eauto; intros z Hz; [apply Ia | apply Ib]; apply in_or_app; right; auto.
 Qed.
 
 (* ---------- substitution lemmas ---------- *)
@@ -261,13 +265,18 @@ Definition sub_val (s : smap) (v : val) : val :=
 
 Lemma assoc_rule_of s x : assoc_e (rule_of s) (Sym x) = assoc_s s x.
 Proof.
-  induction s as [|[k v] s IH]; cbn; auto. rewrite IH. reflexivity.
+  induction s as [|[k v] s IH]; [reflexivity|].
+  change (assoc_e (rule_of ((k, v) :: s)) (Sym x))
+    with (if String.eqb k x then Some v else assoc_e (rule_of s) (Sym x)).
+  rewrite IH. reflexivity.
 Qed.
 
 Lemma assoc_rule_of_nonsym s e : (forall x, e <> Sym x) -> assoc_e (rule_of s) e = None.
 Proof.
-  intros H. induction s as [|[k v] s IH]; cbn; auto.
-  destruct e; cbn; auto. exfalso; eapply H; eauto.
+  intros H. induction s as [|[k v] s IH]; [reflexivity|].
+  change (assoc_e (rule_of ((k, v) :: s)) e)
+    with (if expr_eqb (Sym k) e then Some v else assoc_e (rule_of s) e).
+  rewrite IH. destruct e; cbn; auto. exfalso; eapply H; eauto.
 Qed.
 
 Lemma existsb_snd_false {A B} (f : A -> B * bool) l :
@@ -287,7 +296,11 @@ Lemma xr_attr_nil a : xr_attr [] a = (a, false).
 Proof. reflexivity. Qed.
 
 Lemma map_xr_attr_nil l : map fst (map (xr_attr []) l) = l /\ hits (map (xr_attr []) l) = false.
-Proof. induction l; cbn; auto. destruct IHl as [-> ->]. auto. Qed.
+Proof.
+  induction l as [|a l [IH1 IH2]]; [split; reflexivity|].
+  cbn [map fst xr_attr assoc_a]. rewrite IH1. split; [reflexivity|].
+  unfold hits in *. cbn. exact IH2.
+Qed.
 
 (* xreplace with a symbol-keyed rule is substitution at every depth (Shallow variant) *)
 Lemma xr_spec T s e :
@@ -296,8 +309,10 @@ Lemma xr_spec T s e :
   (snd (xr T Shallow (rule_of s) [] e) = false -> sub s e = e).
 Proof.
   induction e as [x|q|h args IH|c args attrs IH] using expr_ind'; intros W.
-  - cbn [xr]. rewrite assoc_rule_of. cbn. destruct (assoc_s s x); cbn; split; auto; discriminate.
-  - cbn. split; auto.
+  - cbn [xr]. rewrite assoc_rule_of. cbn [sub]. destruct (assoc_s s x); cbn [fst snd]; (split; [reflexivity|]).
+    + discriminate.
+    + reflexivity.
+  - cbn [xr]. rewrite assoc_rule_of_nonsym by (intros; discriminate). cbn. split; auto.
   - cbn [xr]. rewrite assoc_rule_of_nonsym by (intros; discriminate).
     cbn in W. apply forallb_Forall in W.
     assert (IH' : Forall (fun y => fst (xr T Shallow (rule_of s) [] y) = sub s y /\
@@ -337,9 +352,7 @@ Proof.
         assert (Hl : length (map (sub s) args) = length (cfields ci)).
         { rewrite map_length, W1. unfold nsym. rewrite (filter_all fsym _ AS). auto. }
         rewrite <- (interleave_all_sympy (cfields ci) _ AS Hl).
-        apply new_interleave; auto.
-        -- rewrite map_length; auto.
-        -- unfold nattr. rewrite (filter_none fsym _ AS). auto.
+        apply new_interleave; auto; try (rewrite map_length; auto); try (unfold nattr; rewrite (filter_none fsym _ AS); auto).
       * rewrite (NoHit eq_refl). split; auto.
 Qed.
 
@@ -364,11 +377,11 @@ Definition dflt_closed (f : field) : Prop :=
 Lemma fill_sub s fs : Forall dflt_closed fs -> forall vs,
   fill fs (map (sub_val s) vs) = option_map (map (sub_val s)) (fill fs vs).
 Proof.
-  induction 1 as [|f fs Hf _ IH]; intros [|v vs]; cbn; auto.
-  - unfold dflt_closed in Hf. specialize (IH []). cbn in IH.
-    destruct (fdef f) as [|e|a]; auto.
-    + rewrite IH. destruct (fill fs []); cbn; auto. rewrite closed_sub; auto.
-    + rewrite IH. destruct (fill fs []); cbn; auto.
+  induction 1 as [|f fs Hf _ IH]; intros [|v vs]; cbn [map fill option_map]; auto.
+  - unfold dflt_closed in Hf. specialize (IH []). cbn [map] in IH.
+    destruct (fdef f) as [|e|a]; auto; destruct (fill fs []) as [l|]; cbn [option_map map sub_val] in *; auto;
+      injection IH as IH; rewrite <- IH; auto.
+    rewrite closed_sub; auto.
   - rewrite IH. destruct (fill fs vs); cbn; auto.
 Qed.
 
@@ -537,4 +550,168 @@ Proof.
       destruct (pick_In _ _ _ P) as [g Hg]. intros x Hx. eapply HA; eauto.
     + cbn [sub]. f_equal. rewrite !map_map. apply forallb_Forall in St.
       apply map_ext_Forall. rewrite Forall_forall in *. intros y Hy. apply IH; auto.
+Qed.
+
+(* ---------- from the boolean well-formedness checks to the hypotheses above ---------- *)
+Lemma lookup_In T c ci : lookup T c = Some ci -> In ci T /\ cname ci = c.
+Proof.
+  induction T as [|d T IH]; cbn; [discriminate|].
+  destruct (String.eqb (cname d) c) eqn:E; intros H.
+  - inversion H; subst. apply String.eqb_eq in E. auto.
+  - destruct (IH H); auto.
+Qed.
+
+Lemma wf_table_dflt_closed T : wf_table T = true -> table_dflt_closed T.
+Proof.
+  unfold wf_table, table_dflt_closed. intros W c ci L.
+  apply andb_true_iff in W as [_ W]. rewrite forallb_forall in W.
+  destruct (lookup_In _ _ _ L) as [Hin _]. specialize (W ci Hin). unfold cinfo_ok in W.
+  repeat (apply andb_true_iff in W as [W ?]).
+  rewrite forallb_forall in W. apply Forall_forall. intros f Hf. specialize (W f Hf).
+  unfold dflt_ok, dflt_closed in *. destruct (fdef f); auto. destruct (fsym f); [|discriminate].
+  apply andb_true_iff in W as [W _]. unfold closed in W. apply negb_true_iff in W. exact W.
+Qed.
+
+Lemma assoc_s_notin s x : ~ In x (map fst s) -> assoc_s s x = None.
+Proof.
+  induction s as [|[k v] s IH]; cbn; auto. intros H.
+  destruct (String.eqb k x) eqn:E; [apply String.eqb_eq in E; subst; tauto | apply IH; tauto].
+Qed.
+
+Lemma avoids_avoids_prop T s : avoids T s = true -> avoids_prop T s.
+Proof.
+  unfold avoids, disjointb, avoids_prop. intros H c ci g t x L Ht Hx.
+  apply assoc_s_notin. intros Hin. rewrite forallb_forall in H. specialize (H x Hin).
+  apply negb_true_iff in H. assert (existsb (String.eqb x) (table_syms T) = true); [|congruence].
+  apply existsb_exists. exists x. split; [|apply String.eqb_refl].
+  unfold table_syms. apply in_flat_map. exists ci. split; [apply (lookup_In _ _ _ L)|].
+  apply in_flat_map. exists (g, t). auto.
+Qed.
+
+Definition images_ok (T : table) (s : smap) : bool :=
+  forallb (fun kv => unfolded T (snd kv)) s.
+
+Lemma images_ok_unfolded T s : images_ok T s = true -> images_unfolded T s.
+Proof.
+  unfold images_ok, images_unfolded. intros H x v.
+  induction s as [|[k w] s IH]; cbn in *; [discriminate|].
+  apply andb_true_iff in H as [H1 H2]. destruct (String.eqb k x); intros E; [inversion E; subst; auto | auto].
+Qed.
+
+(* C14 item 1.  Side conditions, all decidable and computed on every correspondence case:
+   - [avoids]: the map does not replace a symbol that evaluate() creates itself (bound indices, Dummies);
+   - [images_ok]: the images are already unfolded (otherwise the left side unfolds them and the
+     right side does not — the two sides then differ by a further doit());
+   - [stableF]: the map does not change which case of a value-inspecting evaluate() is taken
+     (BlattWeisskopfSquared: L -> 2 turns the symbolic-L formula into the polynomial one);
+   - [wfi (doitF ..)]: unfolding produced well-formed instances (not proved in general; checked). *)
+Theorem xreplace_doit_commute_gen T s n e :
+  wf_table T = true -> avoids T s = true -> images_ok T s = true ->
+  wfi T e = true -> stableF T s n e = true ->
+  doitF T n (xreplace T Shallow (rule_of s) [] e) = sub s (doitF T n e) /\
+  (wfi T (doitF T n e) = true ->
+   doitF T n (xreplace T Shallow (rule_of s) [] e) = xreplace T Shallow (rule_of s) [] (doitF T n e)).
+Proof.
+  intros W A I We St.
+  assert (E : doitF T n (xreplace T Shallow (rule_of s) [] e) = sub s (doitF T n e)).
+  { rewrite xreplace_shallow_is_substitution by exact We.
+    apply doit_sub_commute; auto using wf_table_dflt_closed, avoids_avoids_prop, images_ok_unfolded. }
+  split; [exact E|]. intros Wd. rewrite E. symmetry. apply xreplace_shallow_is_substitution; exact Wd.
+Qed.
+
+(* subs with a single (symbol, image) pair is the same substitution *)
+Lemma sb_spec T x w e :
+  wfi T e = true ->
+  fst (sb T Shallow (Sym x) w e) = sub [(x, w)] e /\
+  (snd (sb T Shallow (Sym x) w e) = false -> sub [(x, w)] e = e).
+Proof.
+  induction e as [y|q|h args IH|c args attrs IH] using expr_ind'; intros W.
+  - cbn. rewrite String.eqb_sym. destruct (String.eqb x y); cbn; split; auto; discriminate.
+  - cbn. split; auto.
+  - cbn [sb expr_eqb]. cbn in W. apply forallb_Forall in W.
+    assert (IH' : Forall (fun y => fst (sb T Shallow (Sym x) w y) = sub [(x, w)] y /\
+                                   (snd (sb T Shallow (Sym x) w y) = false -> sub [(x, w)] y = y)) args).
+    { rewrite Forall_forall in *. intros y Hy. apply IH; auto. }
+    assert (E : map fst (map (sb T Shallow (Sym x) w) args) = map (sub [(x, w)]) args).
+    { rewrite map_map. apply map_ext_Forall. eapply Forall_impl; [|exact IH']. cbn. intros ? [? ?]; auto. }
+    cbn zeta. destruct (existsb _ _) eqn:Hh; cbn [fst snd sub].
+    + rewrite E. split; [reflexivity | discriminate].
+    + apply existsb_snd_false in Hh.
+      assert (E2 : map (sub [(x, w)]) args = args).
+      { apply map_id_Forall. rewrite Forall_forall in *. intros y Hy. apply IH'; auto. }
+      rewrite E2. split; auto.
+  - cbn [sb expr_eqb]. cbn in W. destruct (lookup T c) as [ci|] eqn:L; [|discriminate].
+    apply andb_true_iff in W as [W W3]. apply andb_true_iff in W as [W1 W2].
+    apply Nat.eqb_eq in W1, W2. apply forallb_Forall in W3.
+    assert (IH' : Forall (fun y => fst (sb T Shallow (Sym x) w y) = sub [(x, w)] y /\
+                                   (snd (sb T Shallow (Sym x) w y) = false -> sub [(x, w)] y = y)) args).
+    { rewrite Forall_forall in *. intros y Hy. apply IH; auto. }
+    assert (E : map fst (map (sb T Shallow (Sym x) w) args) = map (sub [(x, w)]) args).
+    { rewrite map_map. apply map_ext_Forall. eapply Forall_impl; [|exact IH']. cbn. intros ? [? ?]; auto. }
+    assert (NoHit : existsb snd (map (sb T Shallow (Sym x) w) args) = false -> map (sub [(x, w)]) args = args).
+    { intros Hh. apply existsb_snd_false in Hh. apply map_id_Forall.
+      rewrite Forall_forall in *. intros y Hy. apply IH'; auto. }
+    destruct (has_attr_fields ci) eqn:HA; cbn zeta.
+    + destruct (existsb _ _) eqn:Hh; cbn [fst snd sub].
+      * rewrite E. split; [|discriminate]. apply new_interleave; auto. rewrite map_length; auto.
+      * rewrite (NoHit eq_refl). split; auto.
+    + destruct (existsb _ _) eqn:Hh; cbn [fst snd sub].
+      * rewrite E. split; [|discriminate].
+        pose proof (no_attr_all_sympy ci HA) as AS. unfold all_sympy in AS.
+        assert (attrs = []) as ->.
+        { unfold nattr in W2. rewrite (filter_none fsym _ AS) in W2. destruct attrs; [auto|discriminate]. }
+        assert (Hl : length (map (sub [(x, w)]) args) = length (cfields ci)).
+        { rewrite map_length, W1. unfold nsym. rewrite (filter_all fsym _ AS). auto. }
+        rewrite <- (interleave_all_sympy (cfields ci) _ AS Hl).
+        apply new_interleave; auto; try (rewrite map_length; auto); try (unfold nattr; rewrite (filter_none fsym _ AS); auto).
+      * rewrite (NoHit eq_refl). split; auto.
+Qed.
+
+Theorem subs1_shallow_is_substitution T x w e :
+  wfi T e = true -> subs1 T Shallow (Sym x) w e = sub [(x, w)] e.
+Proof. intros W. apply (sb_spec T x w e W). Qed.
+
+(* ---------- C15: a model rebuilt field-wise ---------- *)
+Definition dict := list (expr * expr).
+Definition rebuild_dict T v (d : dict) : dict :=
+  map (fun kv => (rebuild T v (fst kv), rebuild T v (snd kv))) d.
+Definition wf_dict T (d : dict) : bool := forallb (fun kv => wfi T (fst kv) && wfi T (snd kv)) d.
+
+Record model := {
+  m_reaction_info : string;                 (* opaque (qrules object; its pickling is qrules' business) *)
+  m_intensity : expr;
+  m_amplitudes : dict;
+  m_parameter_defaults : dict;
+  m_kinematic_variables : dict;
+  m_components : list (string * expr) }.
+
+Definition rebuild_model T v (m : model) : model :=
+  {| m_reaction_info := m_reaction_info m;
+     m_intensity := rebuild T v (m_intensity m);
+     m_amplitudes := rebuild_dict T v (m_amplitudes m);
+     m_parameter_defaults := rebuild_dict T v (m_parameter_defaults m);
+     m_kinematic_variables := rebuild_dict T v (m_kinematic_variables m);
+     m_components := map (fun kv => (fst kv, rebuild T v (snd kv))) (m_components m) |}.
+
+Definition wf_model T (m : model) : bool :=
+  wfi T (m_intensity m) && wf_dict T (m_amplitudes m) && wf_dict T (m_parameter_defaults m)
+  && wf_dict T (m_kinematic_variables m) && forallb (fun kv => wfi T (snd kv)) (m_components m).
+
+Lemma rebuild_dict_id T d : wf_dict T d = true -> rebuild_dict T Shallow d = d.
+Proof.
+  unfold wf_dict, rebuild_dict. intros W. apply map_id_Forall. apply forallb_Forall in W.
+  eapply Forall_impl; [|exact W]. intros [k x] H. cbn in *. apply andb_true_iff in H as [H1 H2].
+  rewrite !rebuild_shallow_id; auto.
+Qed.
+
+Theorem rebuild_model_id T m : wf_model T m = true -> rebuild_model T Shallow m = m.
+Proof.
+  unfold wf_model. intros W.
+  apply andb_true_iff in W as [W H5]. apply andb_true_iff in W as [W H4].
+  apply andb_true_iff in W as [W H3]. apply andb_true_iff in W as [H1 H2].
+  destruct m; unfold rebuild_model;
+    cbn [m_reaction_info m_intensity m_amplitudes m_parameter_defaults m_kinematic_variables m_components] in *.
+  rewrite (rebuild_shallow_id _ _ H1), (rebuild_dict_id _ _ H2), (rebuild_dict_id _ _ H3), (rebuild_dict_id _ _ H4).
+  f_equal. apply map_id_Forall. apply forallb_Forall in H5. eapply Forall_impl; [|exact H5].
+  intros [k x] Hx. cbn in *. rewrite rebuild_shallow_id; auto.
 Qed.
